@@ -19,11 +19,14 @@ type Outcome struct {
 	Fingerprint uint64            `json:"fp"`
 	Nontrivial  bool              `json:"nontrivial"`
 	Skipped     bool              `json:"skipped,omitempty"`
+	Fatal       bool              `json:"fatal,omitempty"` // the run left a goroutine stuck inside the library: the worker must exit
+	SwitchPairs int               `json:"switch_pairs,omitempty"`
 	Steps       uint64            `json:"steps"`
 	Evals       int               `json:"evals"`
 	Faults      map[string]int    `json:"faults,omitempty"`
 	Probes      map[string]int    `json:"probes,omitempty"`
 	Sample      interface{}       `json:"sample,omitempty"`
+	post        func(o *Outcome)  // run after the synctest bubble has ended (e.g. the porcupine check)
 }
 
 func newOutcome() *Outcome {
